@@ -296,6 +296,70 @@ def _check_tx(net, T, d, rec, rng, via="attr", unspents=None, light=False):
     return tx
 
 
+def _live_edit_history(net, T, d, rec, rng):
+    """one Tx object queried, edited in place, queried again: ids and bytes must always be those of the CURRENT fields"""
+    H = _H(net)
+    d = G.norm(d)
+    if len(R.serialize(d)) > 4000 or not d["ins"]:
+        return
+    tx = G.to_pycoin(T, d)
+    hist = []
+
+    def judge():
+        rec.ev("Tx.id(after in-place edit)")
+        want_id = H(R.serialize(d, False))[::-1].hex()
+        want_w = H(R.serialize(d))[::-1].hex()
+        want_bin = R.serialize(d)
+        st1, a = observe(tx.id)
+        st2, w = observe(tx.w_id)
+        st3, b = observe(tx.as_bin)
+        st4, h = observe(tx.hash)
+        case = {"kind": "edit_history", "net": net, "tx": G.pack(d), "history": list(hist)}
+        rec.case(("edit", net, tuple(hist), want_id))
+        if st3 != "ok" or b != want_bin:
+            rec.violation("tx.history.bytes_stale", case, b if st3 != "ok" else b[:60], want_bin[:60])
+        elif st1 != "ok" or a != want_id or st4 != "ok" or h != H(R.serialize(d, False)):
+            rec.violation("tx.history.id_stale_after." + (hist[-1] if hist else "build"), case, a, want_id)
+        elif st2 != "ok" or w != want_w:
+            rec.violation("tx.history.w_id_stale_after." + (hist[-1] if hist else "build"), case, w, want_w)
+    judge()
+    for _ in range(rng.randrange(2, 7)):
+        e = rng.choice(["version", "lock_time", "sequence", "prev_index", "prev_hash", "in_script", "witness", "out_value", "out_script", "add_out", "pop_out"])
+        k = rng.randrange(len(d["ins"]))
+        if e == "version":
+            d["version"] = tx.version = rng.randrange(1 << 32)
+        elif e == "lock_time":
+            d["lock_time"] = tx.lock_time = rng.randrange(1 << 32)
+        elif e == "sequence":
+            d["ins"][k]["sequence"] = tx.txs_in[k].sequence = rng.choice([0, 1, 0xfffffffd, 0xfffffffe, rng.randrange(1 << 32)])
+        elif e == "prev_index":
+            d["ins"][k]["index"] = tx.txs_in[k].previous_index = rng.randrange(1 << 32)
+        elif e == "prev_hash":
+            d["ins"][k]["prev"] = tx.txs_in[k].previous_hash = bytes(rng.randrange(256) for _ in range(32))
+        elif e == "in_script":
+            d["ins"][k]["script"] = tx.txs_in[k].script = bytes(rng.randrange(256) for _ in range(rng.choice([0, 1, 30, 253])))
+        elif e == "witness":
+            wit = [bytes(rng.randrange(256) for _ in range(rng.choice([0, 1, 33]))) for _ in range(rng.choice([0, 1, 2]))]
+            d["ins"][k]["witness"] = list(wit)
+            tx.txs_in[k].witness = list(wit)
+        elif e in ("out_value", "out_script") and d["outs"]:
+            j = rng.randrange(len(d["outs"]))
+            if e == "out_value":
+                d["outs"][j]["value"] = tx.txs_out[j].coin_value = rng.randrange(1 << 50)
+            else:
+                d["outs"][j]["script"] = tx.txs_out[j].script = bytes(rng.randrange(256) for _ in range(rng.choice([0, 25, 34])))
+        elif e == "add_out":
+            d["outs"].append({"value": 7, "script": b"\x51"})
+            tx.txs_out.append(T.TxOut(7, b"\x51"))
+        elif e == "pop_out" and len(d["outs"]) > 1:
+            d["outs"].pop()
+            tx.txs_out.pop()
+        else:
+            continue
+        hist.append(e)
+        judge()
+
+
 def _rand_unspents(d, rng):
     out = []
     for _ in d["ins"]:
@@ -451,6 +515,8 @@ def run_shard(spec, rec):
             via = ("attr", "attr", "set_witness", "tuple")[rng.randrange(4)]
             u = _rand_unspents(d, rng) if rng.random() < 0.4 else None
             _check_tx(net, nets[net], d, rec, rng, via=via, unspents=u)
+            if i % 3 == 0:
+                _live_edit_history(net, nets[net], d, rec, rng)
             if i < 40 and len(rec.samples) < 2 and len(R.serialize(d)) < 300 and R.has_witness(d):
                 rec.sample({"class": net, "tx": G.pack(d), "txid": _H(net)(R.serialize(d, False))[::-1].hex(),
                             "wtxid": _H(net)(R.serialize(d))[::-1].hex(), "wire": R.serialize(d)})
